@@ -180,6 +180,10 @@ func checkMeta(fe *fontEntry, c *Case, base []G, fail func(check, class string, 
 	run := func(name string, d *Case, cmp func(a, b []G) bool, refBase *Case) {
 		r, err := shapePort(fe, d)
 		if err != nil {
+			if id := knownPanic(fe, d, err); id != "" {
+				ev.Excluded(id)
+				return
+			}
 			fail("meta-"+name, "panic", nil, base, "variant panics: %v (variant %s)", err, mustJSON(d))
 			return
 		}
@@ -311,7 +315,7 @@ func checkFontFuncs(fe *fontEntry, c *Case, got portResult, fail func(check, cla
 
 // ---- tests ----
 
-func fontsPerShard() int { return ev.Scale(7, 46) }
+func fontsPerShard() int { return ev.Scale(12, 46) }
 
 // TestPropShape: the rapid property.
 func TestPropShape(t *testing.T) {
@@ -449,7 +453,16 @@ func disagree(fe *fontEntry, c *Case) bool {
 	got, err := shapePort(fe, c)
 	want := shapeRef(fe, c)
 	resetRef(fe)
-	return err != nil || !sameGlyphs(got.Glyphs, want.Glyphs)
+	if err != nil {
+		return knownPanic(fe, c, err) == ""
+	}
+	if sameGlyphs(got.Glyphs, want.Glyphs) {
+		return false
+	}
+	if os.Getenv("C05_MIN_RAW") != "" {
+		return true
+	}
+	return !triage(fe, c, got, want).excluded // only disagreements no triaged class explains
 }
 
 // minimize greedily simplifies a disagreeing case while it keeps disagreeing (triage aid).
